@@ -302,6 +302,30 @@ def _read(make_wb, bind, headers):
             probes = headers[i] if i < len(headers) else []
             bound = observe_call(lambda: bind(sh, i), lambda x: x)
             out.append([S(str(sh.name)), bound if bound[0] != 0 else _rows(sh, probes)])
+        # the same call sequence written as one chained expression on a workbook opened afresh: the Sheet is a temporary
+        # that is gone (and collected) before any cell of its rows is looked at.  When that reads differently, it is this
+        # reading that is reported.
+        del sheets
+        sh = None
+        observe_call(wb.close, lambda x: 0)
+        opened2 = observe_call(make_wb, lambda w: w)
+        if opened2[0] == 0:
+            wb = opened2[1]
+            for i in range(len(out)):
+                probes = headers[i] if i < len(headers) else []
+
+                def chained():
+                    fresh = list(wb.sheet_iter())[i]
+                    bind(fresh, i)
+                    return list(fresh.rows())
+                got = observe_call(chained, lambda rows: rows)
+                gc.collect()
+                if got[0] == 0:
+                    again = [0, [[observe_call(lambda k=k: row.name(k).value(), _val) for k in probes] for row in got[1]]]
+                else:
+                    again = got
+                if out[i][1][0] == 0 and again != out[i][1]:
+                    out[i][1] = again
         return out
     finally:
         observe_call(wb.close, lambda x: 0)
